@@ -1,15 +1,20 @@
 package main
 
 import (
+	"bytes"
+	"encoding/binary"
 	"encoding/json"
 	"flag"
 	"fmt"
 	"github.com/nsqio/nsq/internal/verif"
+	"io"
+	"net/http"
 	"os"
 	"path/filepath"
 	"runtime"
 	"strings"
 	"sync"
+	"sync/atomic"
 	"time"
 
 	"github.com/nsqio/nsq/nsqd"
@@ -57,6 +62,8 @@ func c08Main(args []string) int {
 			c08Ephemeral(c, d)
 		case "ephsub":
 			c08EphemeralSub(c, d)
+		case "emptybusy":
+			c08EmptyBusy(c, d)
 		}
 		os.RemoveAll(d)
 	}
@@ -205,7 +212,7 @@ func c08Recreate(c *c08Case, dir string) {
 }
 
 func c08DeleteRace(c *c08Case, dir string) {
-	nd, err := startNode(dir, nil)
+	nd, err := startNode(dir, func(o *nsqd.Options) { o.MemQueueSize = 2 })
 	if err != nil {
 		c.Incon = err.Error()
 		return
@@ -222,6 +229,31 @@ func c08DeleteRace(c *c08Case, dir string) {
 			nd.post(fmt.Sprintf("/channel/create?topic=%s&channel=c%d", topic, i), nil)
 		}
 		nd.post("/pub?topic="+topic, []byte("x"))
+		// every channel has a backlog of its own, most of it on disk, and a few idle consumers: deleting it takes a moment
+		for i := 0; i < 10; i++ {
+			nd.post("/pub?topic="+topic, []byte(fmt.Sprintf("chan-backlog-%d", i)))
+		}
+		var idle []*Conn
+		for i := 0; i < nch; i += 2 {
+			for j := 0; j < 3; j++ {
+				if cn, err := dial(nd.TCP, fmt.Sprintf("idle-%d-%d-%d", round, i, j)); err == nil {
+					if _, err := cn.identify(nil); err == nil && cn.sub(strings.ReplaceAll(topic, "%23", "#"), fmt.Sprintf("c%d", i)) == nil {
+						idle = append(idle, cn)
+					} else {
+						cn.close()
+					}
+				}
+			}
+		}
+		time.Sleep(30 * time.Millisecond)
+		// the topic itself holds a backlog (paused: nothing moves on to the channels), most of it on disk
+		durable := !strings.Contains(topic, "ephemeral")
+		if durable {
+			nd.post("/topic/pause?topic="+topic, nil)
+			for i := 0; i < 20; i++ {
+				nd.post("/pub?topic="+topic, []byte(fmt.Sprintf("backlog-%d", i)))
+			}
+		}
 		var wg sync.WaitGroup
 		var mu sync.Mutex
 		slow := 0
@@ -245,6 +277,9 @@ func c08DeleteRace(c *c08Case, dir string) {
 			}
 		}
 		wg.Wait()
+		for _, cn := range idle {
+			cn.close()
+		}
 		if slow > 0 {
 			c.failf("%d of %d concurrent /channel/delete + /topic/delete requests on %s were not answered within 15s (deadlock)", slow, nch+1, topic)
 			return
@@ -252,6 +287,31 @@ func c08DeleteRace(c *c08Case, dir string) {
 		if st, _, err := nd.get("/ping"); err != nil || st != 200 {
 			c.failf("daemon stopped answering after concurrent deletions: %v %d", err, st)
 			return
+		}
+		if durable {
+			// the topic is gone with everything it held: no file of it is left, and a topic of that name starts empty
+			time.Sleep(20 * time.Millisecond)
+			if left := filesFor(dir, topic+".diskqueue"); len(left) > 0 {
+				c.failf("topic %s was deleted while its channels were being deleted one by one; its queue files are still there: %v", topic, left)
+			}
+			nd.post("/topic/create?topic="+topic, nil)
+			nd.post("/channel/create?topic="+topic+"&channel=again", nil)
+			time.Sleep(50 * time.Millisecond)
+			if st, _, err := nd.stats(""); err == nil {
+				for _, ts := range st.Topics {
+					if ts.Name != topic {
+						continue
+					}
+					n := ts.Depth
+					for _, cs := range ts.Channels {
+						n += cs.Depth + cs.InFlightCount + cs.DeferredCount
+					}
+					if n != 0 {
+						c.failf("topic %s was deleted (while its channels were being deleted one by one) and created again: it starts with %d messages of the deleted one", topic, n)
+					}
+				}
+			}
+			nd.post("/topic/delete?topic="+topic, nil)
 		}
 	}
 }
@@ -514,4 +574,135 @@ func c08EphemeralSub(c *c08Case, dir string) {
 	if cs, _ := chanStat(nd, topic, ch2); cs == nil || cs.ClientCount < 1 {
 		c.failf("a consumer subscribed (OK) to %s/%s while the ephemeral topic was being removed (held at %s) receives messages but /stats does not show it", topic, ch2, point)
 	}
+}
+
+// c08EmptyBusy: /channel/empty while the channel's consumers are being served from a large in-memory backlog and nobody
+// publishes any more.  The request is answered (and so is /stats), what a consumer had not been sent is discarded, and a
+// message published afterwards is delivered.
+func c08EmptyBusy(c *c08Case, dir string) {
+	nd, err := startNode(dir, func(o *nsqd.Options) { o.MemQueueSize = 50000 })
+	if err != nil {
+		c.Incon = err.Error()
+		return
+	}
+	stopped := false
+	defer func() {
+		if !stopped {
+			nd.stop(20 * time.Second)
+		}
+	}()
+	nd.post("/topic/create?topic=t", nil)
+	nd.post("/channel/create?topic=t&channel=c", nil)
+	ncons := 2 + int(c.Seed%3)
+	var stop, sawAfter int32
+	var got int64
+	var lastBody atomic.Value
+	lastBody.Store("")
+	var wg sync.WaitGroup
+	for i := 0; i < ncons; i++ {
+		cn, err := dial(nd.TCP, fmt.Sprintf("eb-%d", i))
+		if err != nil {
+			c.Incon = err.Error()
+			return
+		}
+		if _, err := cn.identify(map[string]interface{}{"output_buffer_timeout": 25}); err != nil {
+			cn.close()
+			c.Incon = err.Error()
+			return
+		}
+		if err := cn.sub("t", "c"); err != nil {
+			cn.close()
+			c.Incon = err.Error()
+			return
+		}
+		cn.cmd("RDY", "", fmt.Sprint(20+10*i))
+		wg.Add(1)
+		go func() {
+			defer wg.Done()
+			defer cn.close()
+			for atomic.LoadInt32(&stop) == 0 {
+				f, ok := cn.next(20 * time.Millisecond)
+				if !ok {
+					if cn.isClosed() {
+						return
+					}
+					continue
+				}
+				if f.Type != 2 {
+					continue
+				}
+				atomic.AddInt64(&got, 1)
+				lastBody.Store(string(f.Body))
+				if string(f.Body) == "after-the-last-empty" {
+					atomic.StoreInt32(&sawAfter, 1)
+				}
+				cn.cmd("FIN", f.ID, "")
+			}
+		}()
+	}
+	hc := &http.Client{Timeout: 8 * time.Second}
+	timed := func(path string) (int, time.Duration, error) {
+		t0 := time.Now()
+		resp, err := hc.Post("http://"+nd.HTTP+path, "application/octet-stream", nil)
+		if err != nil {
+			return 0, time.Since(t0), err
+		}
+		io.Copy(io.Discard, resp.Body)
+		resp.Body.Close()
+		return resp.StatusCode, time.Since(t0), nil
+	}
+	for round := 0; round < 4; round++ {
+		var buf bytes.Buffer
+		n := 20000
+		binary.Write(&buf, binary.BigEndian, int32(n))
+		for j := 0; j < n; j++ {
+			buf.Write(lenPrefixed([]byte(fmt.Sprintf("b%d-%05d", round, j))))
+		}
+		if st, _, err := nd.post("/mpub?topic=t&binary=true", buf.Bytes()); err != nil || st != 200 {
+			c.Incon = fmt.Sprintf("mpub: %v %d", err, st)
+			break
+		}
+		// once the topic has handed the whole burst on, only the consumers take from the channel's queue
+		for i := 0; i < 400; i++ {
+			if _, ts := chanStat(nd, "t", "c"); ts != nil && ts.Depth == 0 {
+				break
+			}
+			time.Sleep(2 * time.Millisecond)
+		}
+		time.Sleep(time.Duration(c.Seed%7) * time.Millisecond)
+		st, took, err := timed("/channel/empty?topic=t&channel=c")
+		c.Ops++
+		if err != nil || st != 200 {
+			c.failf("/channel/empty on a channel whose consumers were being served from a %d-message memory backlog (no publisher active) was not answered within 8 s (%v, status %d, after %s)", n, err, st, took.Round(time.Millisecond))
+			if _, _, err := nd.stats(""); err != nil {
+				c.failf("... and /stats is not answered either: %v", err)
+			}
+			break
+		}
+	}
+	if len(c.Fails) == 0 && c.Incon == "" {
+		time.Sleep(100 * time.Millisecond)
+		nd.post("/pub?topic=t", []byte("after-the-last-empty"))
+		ok := false
+		for i := 0; i < 250 && !ok; i++ {
+			time.Sleep(20 * time.Millisecond)
+			ok = atomic.LoadInt32(&sawAfter) == 1
+		}
+		if !ok {
+			diag := ""
+			if cs, ts := chanStat(nd, "t", "c"); cs != nil {
+				diag = fmt.Sprintf("topic depth %d; channel depth %d, in flight %d, deferred %d;", ts.Depth, cs.Depth, cs.InFlightCount, cs.DeferredCount)
+				for _, k := range cs.Clients {
+					diag += fmt.Sprintf(" %s: ready_count %d in_flight_count %d;", k.ClientID, k.ReadyCount, k.InFlightCount)
+				}
+			}
+			c.failf("a message published after the last /channel/empty was not delivered to any of the %d ready consumers within 5 s (%s last body received %q)", ncons, diag, lastBody.Load().(string))
+		}
+	}
+	atomic.StoreInt32(&stop, 1)
+	wg.Wait()
+	if err := nd.stop(20 * time.Second); err != nil && len(c.Fails) == 0 {
+		c.failf("[C05] %v", err)
+	}
+	stopped = true
 }
